@@ -76,6 +76,21 @@ CLAIMS = {
              "partial: proved given paths that are chains, and exercised on every generated input (maxits = n_edges budget not proved). Euler's formula E=3F is a "
              "monitored hypothesis. Python set iteration order in the greedy pairing is not modelled (any complete pairing satisfies the theorem).",
         ref="§7 C06"),
+    "C12": dict(
+        technique="Lean 4 proof (translated cut mask; cumulative-sum renumbering = order-preserving bijection; trailing-edge loop = greatest sub-list without degree-one vertices; permutation bookkeeping) + exact correspondence",
+        text="Kernel-checked theorems: the boundary mask regenerated from the source is non-zero iff the edge crosses no selected boundary; masks keep row order and keep "
+             "edges aligned with their crossings; vertices untouched by cutting; new_index[v] is the position of v among the kept vertices (order-preserving bijection "
+             "onto 0..k-1, strictly monotone, positions follow), an edge survives iff both ends are kept and the reported set is its complement; the trailing-edge "
+             "loop yields a sub-list without degree-one vertices that contains every such sub-list (multigraphs included) and is idempotent; for a permutation, "
+             "ordering[inverse[a]] = a, new position i = old position ordering[i], edge order and every edge vector unchanged. Output lattices of all five operations "
+             "are compared exactly with the model on the zoo (all four boundary selections, subsets of every size incl. none/all/isolating, permutations); plaquette "
+             "survival with equal geometry, no new plaquettes after cut/trailing removal, idempotence and plaquette invariance under relabelling are evaluated on "
+             "the implementation.",
+        note="Trusted: Lean kernel/Mathlib/standard axioms; translator; harness. Known finding K1 (open): remove_trailing_edges creates a plaquette when a dangling tree sits "
+             "inside a bounded face; any new plaquette that is not an input face with removed twice-used edges spliced out is still a VIOLATION. The Lean theorem "
+             "'faces avoiding removed edges survive' (rotation lists only lose entries the face never steps to) is not yet proved; that clause rests on the "
+             "implementation-side oracle together with C01's model.",
+        ref="§7 C12"),
 }
 
 PENDING_REASON = "check not built yet in this revision (work in progress; see DESIGN.md §7 for the planned Lean model and tie)"
